@@ -28,7 +28,7 @@ def bounds(tier):
 
 
 def cases(tier, seed):
-    types = [(w, k) for w in W for k in MULT]
+    types = [(w, k) for w in W for k in MULT] + [(20, "x2")]  # "x2": counted exactly twice the baseline turnout (turnout factor exactly at the default upper limit)
     out = []
     nmax = 4 if tier == "quick" else 6
     for n in range(3, nmax + 1):
@@ -82,10 +82,10 @@ def evaluate(case):
         units = []
         ests = case.get("estimands", ["turnout"])
         for i, (w, k) in enumerate(combo):
-            counted = k * w // 10
+            counted = 2 * (w - 1) if k == "x2" else k * w // 10
             uid = f"AAc{i % 2}_r{i}" if ut == "precinct" else f"AA{i:03d}"
             # dem swings by a different multiplier than turnout (only observable when dem is an estimand)
-            kd = MULT[(MULT.index(k) + 1 + i) % len(MULT)]
+            kd = MULT[((MULT.index(k) if k in MULT else 1) + 1 + i) % len(MULT)]
             rdem = counted // 2 if len(ests) == 1 else min(counted, kd * (w // 3 + 1) // 10)
             units.append(E.make_unit(uid, "AA", f"AAc{i % 2}" if ut == "precinct" else uid, "r", None, (w // 3, w // 3, w - 1), (rdem, (counted - rdem) // 2, counted), 100.0))
         for j, (w, partial) in enumerate([(13, 0), (27, 3), (50, 500), (7, 1)]):
